@@ -209,6 +209,119 @@ def history_aba(a0: bool, a1: bool, a2: bool, a3: bool, a4: bool,
 HISTORY_ABA = ['history_aba']
 
 
+# -- converted_call histories (api._TRANSPILER + conversion._ALLOWLIST_CACHE) ----------
+import sys
+
+from malt.core import ag_ctx
+from malt.impl import conversion
+
+STATUSES = [ag_ctx.Status.ENABLED, ag_ctx.Status.DISABLED, ag_ctx.Status.UNSPECIFIED]
+CALL_OPTS = [
+    converter.ConversionOptions(recursive=True, user_requested=False, optional_features=None),
+    # what generated code of a non-recursive conversion passes to the call wrapper
+    converter.ConversionOptions(recursive=False, user_requested=True, optional_features=None).call_options(),
+]
+
+
+def _ran_generated(name):
+  fr = sys._getframe(1)
+  while fr is not None:
+    if fr.f_code.co_name == 'ag__' + name:
+      return True
+    fr = fr.f_back
+  return False
+
+
+_ran_generated = api.do_not_convert(_ran_generated)
+
+
+def make_call_target(k):
+  def called(a, log):
+    log.append(_ran_generated('called'))
+    if a > k:
+      return ('gt', a, k)
+    return ('le', a, k)
+  return called
+
+
+def call_pool():
+  return [make_call_target(1), make_call_target(5)]
+
+
+def _one_call(f, oi, st, x):
+  log = []
+  with ag_ctx.ControlStatusCtx(STATUSES[st]):
+    r = api.converted_call(f, (x, log), None, options=CALL_OPTS[oi])
+  return (r, tuple(log))
+
+
+_CALL_REF = {}
+
+
+def call_reference(fi, oi, st):
+  """The same request against brand-new caches (transpiler and allow-list) and a brand-new
+  function object: what a fresh conversion under these options in this context does."""
+  if (fi, oi, st) not in _CALL_REF:
+    saved = (api._TRANSPILER, conversion._ALLOWLIST_CACHE)
+    api._TRANSPILER = api.PyToPy()
+    conversion._ALLOWLIST_CACHE = type(conversion._ALLOWLIST_CACHE)()
+    try:
+      _CALL_REF[(fi, oi, st)] = tuple(_one_call(call_pool()[fi], oi, st, x) for x in SAMPLES)
+    finally:
+      api._TRANSPILER, conversion._ALLOWLIST_CACHE = saved
+  return _CALL_REF[(fi, oi, st)]
+
+
+def _call_history(reqs):
+  refs = [call_reference(*r) for r in reqs]
+  saved = (api._TRANSPILER, conversion._ALLOWLIST_CACHE)
+  api._TRANSPILER = api.PyToPy()
+  conversion._ALLOWLIST_CACHE = type(conversion._ALLOWLIST_CACHE)()
+  try:
+    fs = call_pool()
+    for (fi, oi, st), ref in zip(reqs, refs):
+      got = tuple(_one_call(fs[fi], oi, st, x) for x in SAMPLES)
+      if got != ref:
+        return False
+  finally:
+    api._TRANSPILER, conversion._ALLOWLIST_CACHE = saved
+  return True
+
+
+def _decode_call(bits):
+  st = int(bits[2]) + 2 * int(bits[3])
+  if st > 2:
+    return None
+  return (int(bits[0]), int(bits[1]), st)
+
+
+def make_call_history3(f0, o0, s0):
+  def h(a0: bool, a1: bool, a2: bool, a3: bool, b0: bool, b1: bool, b2: bool, b3: bool) -> bool:
+    """
+    post: _
+    """
+    v = deep_realize((a0, a1, a2, a3, b0, b1, b2, b3))
+    with NoTracing():
+      reqs = [(f0, o0, s0)]
+      for k in (0, 4):
+        r = _decode_call(v[k:k + 4])
+        if r is None:
+          return True
+        reqs.append(r)
+      return _call_history(reqs)
+  h.__name__ = h.__qualname__ = 'call_history3_%d_%d_%d' % (f0, o0, s0)
+  return h
+
+
+CALL_HISTORY3 = []
+for _f in range(2):
+  for _o in range(2):
+    for _s in range(3):
+      _h = make_call_history3(_f, _o, _s)
+      globals()[_h.__name__] = _h
+      CALL_HISTORY3.append(_h.__name__)
+
+
 def reach_twin(a0: bool, a1: bool, a2: bool, a3: bool, a4: bool) -> bool:
   """
   post: _
@@ -219,4 +332,8 @@ def reach_twin(a0: bool, a1: bool, a2: bool, a3: bool, a4: bool) -> bool:
 
 
 def explain(func, args, kwargs):
+  if func.startswith('call_history'):
+    return ('converted_call history: first request (function, options, status) = %s, then 4 bits per request '
+            '(f=b0, o=b1, status=b2+2b3 in [ENABLED, DISABLED, UNSPECIFIED]): %r; options=[recursive, non-recursive]' % (
+                func.split('_')[2:], args))
   return 'request history bits (5 per request: f=b0+2b1+4b2, o=b3+2b4) from harness %s: %r; pool=[shared(k=1,d=10), shared(k=5,d=20), v1.target, v2.target, shared(k=2,d=30) re-created]' % (func, args)
